@@ -161,6 +161,17 @@ func (self *Constraints) AddConstraint(id string, weight int, priority int, cons
 	self.compiled = nil
 }
 
+func (self *Constraints) removeConstraint(id string) {
+	var kept []*entry
+	for _, e := range self.entries {
+		if e.id != id {
+			kept = append(kept, e)
+		}
+	}
+	self.entries = kept
+	self.compiled = nil
+}
+
 func (self *Constraints) Constraint(id string) interface{} {
 	for _, e := range self.entries {
 		if e.id == id {
